@@ -1411,3 +1411,273 @@ Proof.
   - apply Z.eqb_eq in K. rewrite K. lia.
   - unfold scaled_up_slice. cbn [fst snd]. nia.
 Qed.
+
+(** ** scale and read_shrink *)
+Lemma Qminq_spec x y : (Qminq x y == x \/ Qminq x y == y) /\ Qminq x y <= x /\ Qminq x y <= y.
+Proof.
+  unfold Qminq. destruct (Qltb y x) eqn:E; [apply Qltb_true in E | apply Qltb_false in E];
+    (split; [auto with qarith; (left; reflexivity) || (right; reflexivity) | split; lra]).
+Qed.
+
+Lemma reproject_scale c ss ds A F ttol stol padding align r :
+  reproject_linear c ss ds A F ttol stol padding align = Ok r -> 0 < c_rs c ->
+  let sx := fst (scale_xy r) in let sy := snd (scale_xy r) in
+  0 < sx /\ 0 < sy /\
+  sx * sx == aa A * aa A + ad A * ad A /\ sx * sy == Qabs (aa A * ae A - ab A * ad A) /\
+  (ab A == 0 -> ad A == 0 -> sx == Qabs (aa A) /\ sy == Qabs (ae A)) /\
+  (scale r == sx \/ scale r == sy) /\ scale r <= sx /\ scale r <= sy /\
+  (1 <= read_shrink r)%Z /\ (scale r < 1 -> read_shrink r = 1%Z) /\
+  (1 <= scale r -> inject_Z (read_shrink r) - c_rs c < scale r /\ scale r < inject_Z (read_shrink r) + 1).
+Proof.
+  intros Hr Htol sx sy.
+  destruct (reproject_linear_cases _ _ _ _ _ _ _ _ _ _ Hr) as (sx' & sy' & Hs & Hsc & Hxy & Hk & _).
+  unfold sx, sy. rewrite Hxy, Hsc. cbn [fst snd].
+  destruct (scale2_spec _ _ _ Hs) as (P1 & P2 & P3 & P4).
+  rewrite Hsc in Hk.
+  destruct (pick_read_scale_spec _ _ _ Htol Hk) as (_ & K1 & K2 & K3).
+  destruct (Qminq_spec sx' sy') as (M1 & M2 & M3).
+  repeat split; try assumption; try tauto.
+  - (* sx = |a| without rotation/shear *)
+    assert (E : sx' * sx' == Qabs (aa A) * Qabs (aa A)).
+    { rewrite P3, H0. apply Qabs_case; intros; ring. }
+    pose proof (Qabs_nonneg (aa A)).
+    destruct (Qlt_le_dec sx' (Qabs (aa A))); [exfalso; timeout 20 nra|].
+    destruct (Qlt_le_dec (Qabs (aa A)) sx'); [exfalso; timeout 20 nra|]. lra.
+  - assert (E : sx' * sx' == Qabs (aa A) * Qabs (aa A)).
+    { rewrite P3, H0. apply Qabs_case; intros; ring. }
+    pose proof (Qabs_nonneg (aa A)).
+    assert (Ex : sx' == Qabs (aa A)).
+    { destruct (Qlt_le_dec sx' (Qabs (aa A))); [exfalso; timeout 20 nra|].
+      destruct (Qlt_le_dec (Qabs (aa A)) sx'); [exfalso; timeout 20 nra|]. lra. }
+    assert (E2 : sx' * sy' == sx' * Qabs (ae A)).
+    { rewrite P4, H. assert (X : aa A * ae A - 0 * ad A == aa A * ae A) by ring. rewrite X, Qabs_Qmult, Ex. reflexivity. }
+    apply Qmult_inj_l in E2; [exact E2 | lra].
+Qed.
+
+(** ** same CRS, sampled path: regions inside the images; separated -> empty *)
+Lemma sampled_within c ss ds A F ttol stol padding align r :
+  reproject_linear c ss ds A F ttol stol padding align = Ok r -> paste_ok r = false ->
+  (0 <= fst ss)%Z -> (0 <= snd ss)%Z -> (0 <= fst ds)%Z -> (0 <= snd ds)%Z ->
+  (0 <= fst (fst (roi_src r)) <= fst ss /\ 0 <= snd (fst (roi_src r)) <= fst ss /\
+   0 <= fst (snd (roi_src r)) <= snd ss /\ 0 <= snd (snd (roi_src r)) <= snd ss)%Z /\
+  (0 <= fst (fst (roi_dst r)) <= fst ds /\ 0 <= snd (fst (roi_dst r)) <= fst ds /\
+   0 <= fst (snd (roi_dst r)) <= snd ds /\ 0 <= snd (snd (roi_dst r)) <= snd ds)%Z.
+Proof.
+  intros Hr Hp S1 S2 D1 D2.
+  destruct (reproject_linear_cases _ _ _ _ _ _ _ _ _ _ Hr) as (sx & sy & _ & _ & _ & _ & [[_ Hroi] | [Hp' _]]); [|congruence].
+  pose proof (relative_rois_within (aff_pt A) (aff_pt F) ss ds 2 (pad_default padding) (norm_align align) S1 S2 D1 D2) as W.
+  cbv zeta in W. rewrite <- Hroi in W. exact W.
+Qed.
+
+Definition align_slack (align : option Z) : Z := match align with None => 0%Z | Some a => (a - 1)%Z end.
+
+(** the values are beyond the image [0, n) by more than the margin *)
+Definition axis_sep (vals : list Q) (n pad : Z) (align : option Z) : Prop :=
+  match vals with
+  | [] => True
+  | v :: vs => (Qceiling (Qmax_list v vs) + pad <= 0)%Z \/
+               (n + align_slack align <= Qfloor (Qmin_list v vs) - pad)%Z
+  end.
+
+Lemma axis_from_points_sep vals n padding align lim :
+  (0 <= n)%Z -> align_ok align -> (0 <= padding <= lim)%Z ->
+  (n + align_slack align <= lim - padding)%Z ->
+  axis_sep vals n padding align ->
+  let r := axis_from_points vals n padding align lim in (snd r - fst r <= 0)%Z.
+Proof.
+  intros Hn Ha Hp Hl Hs. destruct vals as [|v vs]; [cbn; lia|].
+  destruct Hs as [H | H].
+  - apply axis_from_points_empty_lo; assumption.
+  - apply axis_from_points_empty_hi; try assumption; try lia.
+Qed.
+
+Lemma roi_from_points_sep pts ny nx padding align :
+  (0 <= ny)%Z -> (0 <= nx)%Z -> (0 <= padding)%Z -> align_ok align ->
+  axis_sep (xs_of pts) nx padding align \/ axis_sep (ys_of pts) ny padding align ->
+  roi_empty (roi_from_points pts ny nx padding align) = true.
+Proof.
+  intros Hny Hnx Hp Ha Hs. unfold roi_from_points, roi_empty.
+  set (lim := (Z.max nx ny + padding + match align with None => 1 | Some a => a end + 1)%Z).
+  assert (L1 : (0 <= padding <= lim)%Z) by (unfold lim; destruct align; simpl in Ha; lia).
+  assert (L2 : (nx + align_slack align <= lim - padding)%Z) by (unfold lim, align_slack; destruct align; simpl in Ha; lia).
+  assert (L3 : (ny + align_slack align <= lim - padding)%Z) by (unfold lim, align_slack; destruct align; simpl in Ha; lia).
+  destruct (axis_from_points (map snd (keep_finite pts)) ny padding align lim) as [y0 y1] eqn:Ey.
+  destruct (axis_from_points (map fst (keep_finite pts)) nx padding align lim) as [x0 x1] eqn:Ex.
+  apply orb_true_iff. destruct Hs as [H | H].
+  - right. apply Z.leb_le.
+    pose proof (axis_from_points_sep _ nx padding align lim Hnx Ha L1 L2 H) as S. unfold xs_of in S.
+    cbv zeta in S. rewrite Ex in S. exact S.
+  - left. apply Z.leb_le.
+    pose proof (axis_from_points_sep _ ny padding align lim Hny Ha L1 L3 H) as S. unfold ys_of in S.
+    cbv zeta in S. rewrite Ey in S. exact S.
+Qed.
+
+Lemma relative_rois_sep back fwd ss ds n padding align :
+  (0 <= fst ss)%Z -> (0 <= snd ss)%Z -> (0 <= padding)%Z -> align_ok align ->
+  let pts := map back (boundary_pts ((0%Z, fst ds), (0%Z, snd ds)) n) in
+  axis_sep (xs_of pts) (snd ss) padding align \/ axis_sep (ys_of pts) (fst ss) padding align ->
+  let r := relative_rois back fwd ss ds n padding align in
+  roi_empty (fst r) = true /\ snd r = ((0, 0), (0, 0))%Z.
+Proof.
+  intros S1 S2 Hp Ha pts Hs. unfold relative_rois. fold pts.
+  rewrite (roi_from_points_sep pts (fst ss) (snd ss) padding align S1 S2 Hp Ha Hs). cbn [fst snd].
+  split; [|reflexivity]. apply roi_from_points_sep; assumption.
+Qed.
+
+Lemma sampled_disjoint c ss ds A F ttol stol padding align r :
+  reproject_linear c ss ds A F ttol stol padding align = Ok r -> paste_ok r = false ->
+  (0 <= fst ss)%Z -> (0 <= snd ss)%Z -> (0 <= pad_default padding)%Z -> align_ok (norm_align align) ->
+  let pts := map (aff_pt A) (boundary_pts ((0%Z, fst ds), (0%Z, snd ds)) 2) in
+  axis_sep (xs_of pts) (snd ss) (pad_default padding) (norm_align align) \/
+  axis_sep (ys_of pts) (fst ss) (pad_default padding) (norm_align align) ->
+  roi_empty (roi_src r) = true /\ roi_dst r = ((0, 0), (0, 0))%Z.
+Proof.
+  intros Hr Hp S1 S2 Hpad Hal pts Hs.
+  destruct (reproject_linear_cases _ _ _ _ _ _ _ _ _ _ Hr) as (sx & sy & _ & _ & _ & _ & [[_ Hroi] | [Hp' _]]); [|congruence].
+  pose proof (relative_rois_sep (aff_pt A) (aff_pt F) ss ds 2 _ _ S1 S2 Hpad Hal Hs) as W.
+  cbv zeta in W. rewrite <- Hroi in W. exact W.
+Qed.
+
+(** all values on one side of the image by the margin -> separated *)
+Lemma Qmax_list_mem v vs : In (Qmax_list v vs) (v :: vs).
+Proof.
+  revert v; induction vs as [|a l IH]; intros v; [left; reflexivity|].
+  simpl. destruct (Qle_bool v a).
+  - destruct (IH a) as [E | E]; [right; left; exact E | right; right; exact E].
+  - destruct (IH v) as [E | E]; [left; exact E | right; right; exact E].
+Qed.
+Lemma Qmin_list_mem v vs : In (Qmin_list v vs) (v :: vs).
+Proof.
+  revert v; induction vs as [|a l IH]; intros v; [left; reflexivity|].
+  simpl. destruct (Qle_bool v a).
+  - destruct (IH v) as [E | E]; [left; exact E | right; right; exact E].
+  - destruct (IH a) as [E | E]; [right; left; exact E | right; right; exact E].
+Qed.
+
+Lemma axis_sep_all vals n pad align :
+  (forall v, In v vals -> v <= - inject_Z pad) \/
+  (forall v, In v vals -> inject_Z (n + align_slack align + pad) <= v) ->
+  axis_sep vals n pad align.
+Proof.
+  intros H. destruct vals as [|v vs]; [exact I|]. unfold axis_sep.
+  destruct H as [H | H].
+  - left. specialize (H _ (Qmax_list_mem v vs)).
+    assert (Qceiling (Qmax_list v vs) <= - pad)%Z by (apply Qceiling_le_iff; rewrite inject_Z_opp; exact H). lia.
+  - right. specialize (H _ (Qmin_list_mem v vs)).
+    assert (n + align_slack align + pad <= Qfloor (Qmin_list v vs))%Z by (apply Qfloor_ge_iff; exact H). lia.
+Qed.
+
+(** ** paste path: nothing maps inside -> both regions empty *)
+Lemma axis_unit_empty Ns Nd T flip src dst :
+  axis_unit_facts Ns Nd T flip src dst ->
+  (forall d, (0 <= d < Nd)%Z -> ~ (0 <= nn_unit T flip d < Ns)%Z) ->
+  snd src = fst src /\ snd dst = fst dst.
+Proof.
+  intros (W1 & W2 & Es & F2 & _) H. unfold sl_within, in_sl in *.
+  destruct (Z.eq_dec (snd dst) (fst dst)) as [E | N]; [lia|].
+  exfalso. apply (H (fst dst)); [lia|]. apply F2; lia.
+Qed.
+
+Lemma nn_unit_half T f d :
+  unit_q f * (inject_Z d + (1#2)) + inject_Z T == inject_Z (nn_unit T f d) + (1#2).
+Proof.
+  unfold nn_unit, unit_q. destruct f.
+  - unfold Z.sub. rewrite !inject_Z_plus, !inject_Z_opp. change (inject_Z (-1)) with (-(1)). change (inject_Z 1) with 1. ring.
+  - rewrite !inject_Z_plus. change (inject_Z 1) with 1. ring.
+Qed.
+
+Lemma nn_unit_inside T f d dim x :
+  x == unit_q f * (inject_Z d + (1#2)) + inject_Z T ->
+  ((0 <= nn_unit T f d < dim)%Z <-> (0 <= x /\ x < inject_Z dim)).
+Proof.
+  intros E. rewrite E, nn_unit_half. set (n := nn_unit T f d). clearbody n. split.
+  - intros [H1 H2]. rewrite Zle_Qle in H1. change (inject_Z 0) with 0 in H1.
+    assert (inject_Z n + 1 <= inject_Z dim).
+    { assert (E1 : inject_Z n + 1 == inject_Z (n + 1)) by (rewrite inject_Z_plus; reflexivity).
+      rewrite E1, <- Zle_Qle. lia. }
+    lra.
+  - intros [H1 H2]. split.
+    + apply inject_Z_half_lt. change (inject_Z 0) with 0. lra.
+    + rewrite Zlt_Qlt. lra.
+Qed.
+
+Lemma paste_disjoint c ss ds A F ttol stol padding align r :
+  reproject_linear c ss ds A F ttol stol padding align = Ok r -> paste_ok r = true ->
+  (0 <= fst ss)%Z -> (0 <= snd ss)%Z -> (0 <= fst ds)%Z -> (0 <= snd ds)%Z -> tol_ok c stol ->
+  let k := read_shrink r in
+  let P := paste_affine c A ttol stol k in
+  (* no destination column (or no row) maps into the (overview of the) source under the snapped transform *)
+  (forall dx, (0 <= dx < snd ds)%Z ->
+     let x := fst (aff_apply P (pix_center 0 dx)) in ~ (0 <= x /\ x < inject_Z (snd (src_dims ss k)))) \/
+  (forall dy, (0 <= dy < fst ds)%Z ->
+     let y := snd (aff_apply P (pix_center dy 0)) in ~ (0 <= y /\ y < inject_Z (fst (src_dims ss k)))) ->
+  roi_empty (roi_src r) = true /\ roi_empty (roi_dst r) = true.
+Proof.
+  intros Hr Hp S1 S2 D1 D2 Htol k P Hdis.
+  destruct (paste_structure _ _ _ _ _ _ _ _ _ _ Hr Hp S1 S2 D1 D2 Htol) as (K1 & tx & ty & rs & rd & HP & Fy & Fx & Hrs & Hrd & _).
+  fold k in K1, HP, Fy, Fx, Hrs. fold P in HP.
+  assert (Hax : (snd (snd rs) = fst (snd rs) /\ snd (snd rd) = fst (snd rd)) \/
+                (snd (fst rs) = fst (fst rs) /\ snd (fst rd) = fst (fst rd))).
+  { destruct Hdis as [H | H]; [left | right].
+    - apply (axis_unit_empty _ _ _ _ _ _ Fx). intros d Hd C. apply (H d Hd). cbv zeta.
+      apply (nn_unit_inside tx (Qltb (aa A) 0) d); [|exact C].
+      rewrite HP. unfold aff_apply, pix_center. cbn [fst snd aa ab ac ad ae af]. ring.
+    - apply (axis_unit_empty _ _ _ _ _ _ Fy). intros d Hd C. apply (H d Hd). cbv zeta.
+      apply (nn_unit_inside ty (Qltb (ae A) 0) d); [|exact C].
+      rewrite HP. unfold aff_apply, pix_center. cbn [fst snd aa ab ac ad ae af]. ring. }
+  rewrite Hrd, Hrs. unfold roi_empty, up_roi.
+  destruct rs as [[sy0 sy1] [sx0 sx1]]. destruct rd as [[dy0 dy1] [dx0 dx1]]. cbn [fst snd] in *.
+  destruct (k =? 1)%Z; unfold scaled_up_slice; cbn [fst snd];
+    (split; apply orb_true_iff; destruct Hax as [[E1 E2] | [E1 E2]]; [right | left | right | left]; apply Z.leb_le; nia).
+Qed.
+
+(** ** _can_paste: what acceptance means *)
+Lemma can_paste_sound c A stol ttol :
+  can_paste c A stol ttol = Ok true -> tol_ok c stol ->
+  exists sx sy k tx ty,
+    scale2 A = Ok (sx, sy) /\ pick_read_scale (Qminq sx sy) (c_rs c) = Ok k /\ (1 <= k)%Z /\
+    Qabs (ab A) < c_st c /\ Qabs (ad A) < c_st c /\
+    (exists z, Qabs (Qminq sx sy - inject_Z z) < stol) /\
+    Qabs (Qabs (aa A) / inject_Z k - 1) < stol /\ Qabs (Qabs (ae A) / inject_Z k - 1) < stol /\
+    Qabs (ac A / inject_Z k - inject_Z tx) < ttol /\ Qabs (af A / inject_Z k - inject_Z ty) < ttol /\
+    paste_affine c A ttol stol k =
+      mkAff (unit_q (Qltb (aa A) 0)) 0 (inject_Z tx) 0 (unit_q (Qltb (ae A) 0)) (inject_Z ty).
+Proof.
+  unfold can_paste. intros H (T0 & T1 & T2 & T3).
+  destruct (can_paste_code c A stol ttol) as [code|e] eqn:Ec; [|discriminate]. cbn [bind] in H.
+  injection H as H. apply Z.eqb_eq in H. subst code.
+  destruct (can_paste_code_ok _ _ _ _ Ec) as (sx & sy & k & Hs & Hst & Hai & Hk & _).
+  destruct (paste_affine_unit c A stol ttol sx sy k Ec Hs Hk T0 T1 T2 T3) as (K1 & tx & ty & HP & Q1 & Q2 & Q3 & _ & Q5 & _).
+  destruct (is_affine_st_spec _ _ Hst) as [Hb Hd].
+  destruct (maybe_int_almost _ _ Hai) as (z & _ & Hz & _).
+  exists sx, sy, k, tx, ty. repeat split; try assumption. exists z. exact Hz.
+Qed.
+
+Lemma can_paste_rotation c A stol ttol :
+  c_st c <= Qabs (ab A) \/ c_st c <= Qabs (ad A) -> can_paste c A stol ttol = Ok false.
+Proof.
+  intros H. unfold can_paste, can_paste_code, is_affine_st.
+  assert (E : Qltb (Qabs (ab A)) (c_st c) && Qltb (Qabs (ad A)) (c_st c) = false).
+  { apply andb_false_iff. destruct H; [left | right]; apply Qltb_false; assumption. }
+  rewrite E. reflexivity.
+Qed.
+
+(** ** different CRS: inclusion conditional on the enclosing hypothesis *)
+Lemma reproject_nonlinear_cases c back fwd scale_at ss ds padding align r :
+  reproject_nonlinear c back fwd scale_at ss ds padding align = Ok r ->
+  paste_ok r = false /\
+  (roi_src r, roi_dst r) = relative_rois back fwd ss ds 5 (pad_default padding) (norm_align align) /\
+  ((roi_empty (roi_dst r) = true /\ read_shrink r = 1%Z /\ scale r = 0) \/
+   (roi_empty (roi_dst r) = false /\
+    exists sx sy, scale_xy r = (sx, sy) /\ scale r = Qminq sx sy /\
+                  pick_read_scale (scale r) (c_rs c) = Ok (read_shrink r))).
+Proof.
+  unfold reproject_nonlinear, pad_default. intros H.
+  destruct (relative_rois back fwd ss ds 5 _ _) as [rs rd] eqn:Er.
+  destruct (roi_empty rd) eqn:Ee; cbn [negb] in H.
+  - injection H as <-. cbn. repeat split. left. repeat split. exact Ee.
+  - destruct rd as [[y0 y1] [x0 x1]].
+    destruct (scale_at _) as [[sx sy]|e]; [|discriminate]. cbn [bind] in H.
+    destruct (pick_read_scale (Qminq sx sy) (c_rs c)) as [k|e] eqn:Ek; [|discriminate]. cbn [bind] in H.
+    injection H as <-. cbn. repeat split. right. split; [exact Ee|]. exists sx, sy. repeat split. exact Ek.
+Qed.
